@@ -31,10 +31,12 @@ VERIF_MSG = (
 
 
 class Failure:
-    def __init__(self, unit, fnkey, kind, message, gen_line, src, clause, rendered):
+    def __init__(self, unit, fnkey, kind, message, gen_line, src, clause, rendered, line_text=""):
         self.unit, self.fnkey, self.kind, self.message = unit, fnkey, kind, message
         self.gen_line, self.src, self.clause, self.rendered = gen_line, src, clause, rendered
-        self.tags = None
+        self.line_text = line_text
+        m = re.search(r"//\s*\[((?:C\d+[ ,]*)+)\]", line_text or "")
+        self.tags = re.findall(r"C\d+", m.group(1)) if m else None
 
     def name(self):
         h = hashlib.sha256(" ".join(self.clause.split()).encode()).hexdigest()[:8]
@@ -133,7 +135,7 @@ def run_unit(unit, rlimit=30, seed=None, outdir=None, extra_flags=()):
         res.wall = time.time() - t0
         return res
     res.meta = meta
-    cmd = [VERUS, path, "--output-json", "--time", "--error-format=json", "--multiple-errors", "10", "--rlimit", str(rlimit), "--no-report-long-running"]
+    cmd = [VERUS, path, "--output-json", "--time", "--error-format=json", "--multiple-errors", "10", "--rlimit", str(meta.get("rlimit") or rlimit), "--no-report-long-running"]
     cmd += list(meta.get("flags", [])) + list(extra_flags)
     if seed is not None:
         cmd += ["--smt-option", "smt.random_seed=%d" % seed]
@@ -194,7 +196,8 @@ def run_unit(unit, rlimit=30, seed=None, outdir=None, extra_flags=()):
         if fnkey is None or fnkey.startswith("<"):
             nm = enclosing_fn_of_line(gen_lines, body_line or line)
             fnkey = "%s::%s" % ((fnkey or "<generated>").strip("<>"), nm)
-        res.failures.append(Failure(unit, fnkey, kind_of(msg), msg, line, src, clause or msg, d.get("rendered", "")))
+        lt = gen_lines[line - 1] if 0 < line <= len(gen_lines) else ""
+        res.failures.append(Failure(unit, fnkey, kind_of(msg), msg, line, src, clause or msg, d.get("rendered", ""), lt))
     if summary:
         vr = summary.get("verification-results", {})
         res.verified = vr.get("verified", 0)
